@@ -98,3 +98,17 @@ Proof. split; [exact ex_too_shallow|]. destruct ex_parses as (e & H & _). exists
 (* the example tree has children everywhere, so every rebuilding branch of the assembler runs *)
 Example ex_c05_save : is_ok (save_region ex_dec ex_enc ex_u2s ex_s2u ex_nvar 6 ex_img) = true.
 Proof. vm_compute. reflexivity. Qed.
+
+(* ---------------------------------------------------------------------------------------- *)
+(* "The same holds for every tree-walking operation (json, table, validate, extract, assemble)
+   applied to a tree that parsing accepted": assemble is [C05_assemble_no_panic] above; for the
+   validate visitor the statement holds for EVERY tree, accepted by the parser or not (model
+   Model/Validate.v, lemma of Proofs/ValidateProofs.v; the same lemma closes C09_validate_total):
+   its slice expressions f.Buf()[:HeaderLen], f.buf[:headerSize], f.Buf()[headerSize:] and
+   f.Buf()[fvlen-FreeSpace:] are checked operations of the model and none can fail.
+   [fixed] selects the repaired or the pinned validate.  json / table / extract stay test-only. *)
+From Fiano Require Import Gen.Consts Model.Validate Proofs.ValidateProofs.
+
+Theorem C05_validate_total : forall fixed n, exists l, validate_gen fixed n = Ok l.
+Proof. exact validate_total. Qed.
+Print Assumptions C05_validate_total.
